@@ -412,7 +412,7 @@ func layerHeightRel(c *Ctx, cond ssa.Value, truth bool) (string, bool) {
 		if !ok {
 			return false
 		}
-		if strings.HasPrefix(c.Facts.External(call), "callback:keyLayer") {
+		if strings.HasPrefix(c.Facts.External(call), "callback:keyLayer") || isKeyLayerResult(c, v, 0) {
 			return true
 		}
 		// a call through a function-typed parameter of the layer shape func(interface{}, uint) (uint8, error)
